@@ -848,6 +848,11 @@ class Node:
         instance are removed as well.
         """
         if with_clones:
+            if keep_children:
+                # Check the unique constraint for all clones before removing the
+                # first one (otherwise a refused call has already removed some)
+                for c in self.get_clones(add_self=True):
+                    c._check_keep_children()
             for c in self.get_clones():  # Excluding self
                 if c._tree is None:
                     continue  # Already removed as descendant of another clone
@@ -862,12 +867,7 @@ class Node:
                 parent = self._parent
                 siblings: list[Node] = parent._children  # type: ignore
                 # Same data must not appear twice below one parent
-                sibling_ids = {n._data_id for n in siblings if n is not self}
-                for c in children:
-                    if c._data_id in sibling_ids:
-                        raise UniqueConstraintError(
-                            f"Node.data already exists in parent: {c}"
-                        )
+                self._check_keep_children()
                 # Insert the children at the position of this node
                 idx = _index_of(siblings, self)
                 for c in children:
@@ -883,6 +883,22 @@ class Node:
             pc = self._parent._children = None
 
         self._tree._unregister(self)
+
+    def _check_keep_children(self) -> None:
+        """Raise UniqueConstraintError if moving the children one level up would
+        place a second node with the same data below the parent."""
+        children = self._children
+        if children:
+            sibling_ids = {
+                n._data_id
+                for n in self._parent._children  # type: ignore
+                if n is not self
+            }
+            for c in children:
+                if c._data_id in sibling_ids:
+                    raise UniqueConstraintError(
+                        f"Node.data already exists in parent: {c}"
+                    )
 
     def remove_children(self) -> None:
         """Remove all children of this node, making it a leaf node."""
